@@ -170,3 +170,16 @@ ghost("sub_names_of", ["set[str]", "str"], "list[str]")
 def sub_names(store):
     # the list Store.subdirectories() returns: a function of the directory state (named, not defined)
     return sub_names_of(store.ghost_subdirs, store.path)
+
+
+# ---------------------------------------------------------------------------- refinement (behavioural subtyping)
+# The generic code (GitStore.import_one, iter_with_etag, the web layer) is verified against the
+# interface contracts GitStore._import_one / _get_etag / Store.get_ctag / delete_one /
+# subdirectories; TreeGitStore, BareGitStore and VdirStore are verified against their own,
+# stronger contracts, whose postconditions contain the interface's clauses over the same ghost
+# fields (defined by views).  That a subclass contract implies the interface contract is NOT
+# checked mechanically: the subclass contracts carry extra preconditions - the representation
+# invariant rep_tree / rep_bare, "name is not a sub-directory", "name is not the metadata file" -
+# that the interface does not state.  It is listed as an assumption in DESIGN 0.12.
+# (`refines("Base.m", ["Sub", ...])` generates Sub.m@iface obligations; with the current interface
+# contracts they are not provable, for the reason above.)
